@@ -91,7 +91,7 @@ def run_path(contract: FunctionContract, shape, prefix, repo=REPO):
     L.reset_names()
     it = Interp(repo, prefix, timeout_ms=contract.timeout_ms)
     if contract.tier == "T2":
-        it.feas_rlimit = getattr(contract, "feas_rlimit", 3000000)      # quantifier-free queries: answers are definite and quick
+        it.feas_rlimit = getattr(contract, "feas_rlimit", 400000)      # quantifier-free queries: answers are definite and quick
     contract.install(it)
     obs, outcome = [], None
     fn = contract.fname
@@ -219,8 +219,13 @@ class Result:
             e["detail"] = o["detail"]
 
 
-def verify(cref, level="quick", repo=REPO, max_paths=20000, parallel=True) -> Result:
-    """explore every path of the function under its contract, for every shape of the level"""
+def verify(cref, level="quick", repo=REPO, max_paths=20000, parallel=True, budget_s=None) -> Result:
+    """explore every path of the function under its contract, for every shape of the level.
+    budget_s: wall-clock budget for this contract; when it is exhausted no new path is started and the contract's obligations are
+    reported as undecided (never as proved, never as a violation)."""
+    if budget_s is None:
+        budget_s = float(os.environ.get("PYVC_BUDGET_S", "240" if level == "quick" else "2400"))
+    t_start = time.time()
     mod, name = cref
     contract = getattr(importlib.import_module(mod), name)
     res = Result(contract)
@@ -253,6 +258,13 @@ def verify(cref, level="quick", repo=REPO, max_paths=20000, parallel=True) -> Re
         shape = pending.pop(done)
         obs, forks, trusted, stats = done.result()
         _absorb(res, obs, trusted, stats)
+        if time.time() - t_start > budget_s:
+            res.max_paths_hit = True
+            res.budget_exhausted = True
+            for fut in list(pending):
+                fut.cancel()
+            if forks or pending:
+                continue
         if res.paths + len(pending) < max_paths:
             for f in forks:
                 submit(shape, f)
@@ -285,7 +297,7 @@ def to_obs(res: Result, prop: str, only=None, prefix="") -> list:
         st = {"proved": PROVED, "refuted": REFUTED, "undecided": UNDECIDED}[e["status"]]
         if res.max_paths_hit and st == PROVED:
             st = UNDECIDED
-            e["detail"] = "path budget exhausted before all paths were explored"
+            e["detail"] = "path / time budget exhausted before all paths were explored"
         ob = Ob(id=f"{prop}/{tier}/{oid}", tier=tier, status=st, function=c.target, solver="z3-" + z3.get_version_string(), time_s=e["time"], bound=bound,
                 detail=(f"line {e['line']}: " if e["line"] else "") + (e["detail"] or "") + (f" | shape {e['shape']}" if e.get("shape") else "") +
                        (f" | counter-model: {e['model']}" if e["model"] else ""))
